@@ -2,7 +2,6 @@ SPECIFICATION Spec
 CONSTANTS Depth = 3
 CONSTRAINT Bounded
 VIEW view
-INVARIANT RefAllowed
 INVARIANT NoLoss
 INVARIANT OnlyFormatFiles
 INVARIANT MovedIsGone
